@@ -231,6 +231,19 @@ CHECKS = {
             "creation site, not by scenario.",
             "TLA+ spec (safety + liveness + deviations), exploration of the real server with runtime snapshots against a baseline",
             "DESIGN.md §3 C09"),
+    "C15": ("model_checking",
+            "Proxy.tla models a client connection's two FIFO legs through a proxy to its one configured backend (send, forward, backend "
+            "reply, back) with the invariants BackendSawExactlyClientSent, ClientSawExactlyBackendSent and OnlyBackendDialled; TLC draws "
+            "exchanges (http: 1..3 requests over methods, targets, header sets incl. repeated names and with/without User-Agent, bodies "
+            "0..64 KiB content-length or chunked, replies 0..64 KiB split at a cut point, pipelined or lock-step, 1..3 concurrent clients; "
+            "copy streams; dns datagrams), checks every interleaving of the model on each, and requires the deviations found in the code to "
+            "violate the invariants; every exchange is played against the REAL server with the real socket listener and forward directors on "
+            "loopback: harness backends record what they receive and answer, a decoy listener must never be contacted, and what backend and "
+            "client saw is compared at the level the property names; relayed requests must be recorded in events.",
+            "The ssh-proxy leg is not covered (no ssh backend fixture); Host/Content-Length/Transfer-Encoding framing headers are "
+            "excluded from the header comparison.",
+            "TLA+ spec + TLC on drawn exchanges, replay through the real proxies over loopback sockets",
+            "DESIGN.md §3 C15"),
 }
 
 NOT_YET = "check not built yet in this session (see DESIGN.md §10 for the order of construction)"
